@@ -170,6 +170,35 @@ CLAIMED = {
    text="Model of AtDate/AtTime/RoundToNearest/WasAutomatic and the stop fallback in coq/Model/Commands.v; theorems in coq/Properties/C17.v as far as proved (round_spec, at_time_spec, stop_fallback_spec). Tied to the code by a clock-face sweep: start/stop/switch without --time at every minute x 8 roundings x date selections x record layouts, and `total --now` at every minute; oracles: abstract model (expected offsets, failures) and no-crash.",
    design="§4 C17", technique="Coq proof (lia / lifted clock-face sweep) over hand model; exhaustive clock sweep correspondence",
    note=TB + "Model reflects fix F6."),
+ "C20": dict(
+   text="Theorems in coq/Properties/C20.v over the executable model of `klog json` (coq/Model/JsonView.v: Context.ReadInputs over one or several files, "
+        "ToJson with its record / entry / tag / error views in the member order of view.go, the safemath panics of service.Total and service.Diff, "
+        "strings.TrimRight; on top of the model of Go's encoding/json in coq/Model/Json.v, the parser, evaluation and tag models) and of the terminal "
+        "report of the same errors (PrettifyParsingError with Reflower, colours off): (1) whatever is printed, compact or --pretty, with or without the "
+        "newline of stdout, is accepted by the JSON parser and read back as the document with every string passed through string([]rune(s)) - for ANY "
+        "parse results and file names (generalisation of C19's print/parse theorem to arbitrary bytes: decode(encode s) = sanitize s), and read back as "
+        "EXACTLY the document for every text the parser has read and every valid-UTF-8 path (the parser's summaries, the derived tag strings and all "
+        "value notations are proved valid UTF-8); the command prints a document or panics with an integer overflow, and panics exactly when there is no "
+        "syntax error and some record's running total or total-minus-should leaves safemath's range (K1); (2) exactly one of records / errors is null; "
+        "(3) a decoding function of_view with of_view (view r) = data_of r for every well-formed record, every record the parser returns is well-formed "
+        "(valid date and times, summary lines without LF, record summary lines non-empty, entry summaries non-nil), hence end to end text -> parser -> "
+        "klog json -> JSON parser -> of_document = the data of the parsed records in order, for one or several files; data_of forgets exactly dash "
+        "spacing, placeholder length and the sign notation of durations; (4) total_mins = sum of the entries' total_mins, diff_mins = total_mins - "
+        "should_total_mins, a range's total_mins = end_mins - start_mins, read off the JSON members, under the exact no-overflow guard; (5) every error "
+        "object has line = line index + 1, column = position + 1, length, title/details of its code and the file, and the terminal report consists of one "
+        "block per error from which a reader takes the same line number, caret offset = column - 1 and caret count = length, ending in the re-flowed "
+        "title: details. Tied to the code by byte-identical correspondence of stdout of the REAL `klog json [--pretty] FILE...` run through klog.Run "
+        "(conforming, faulted and arbitrary-byte files, summaries of quotes / backslashes / control characters / <>& / U+2028-9 / invalid UTF-8, very long "
+        "lines, odd file names, several files), of json.ToJson called directly with arbitrary origin bytes, and of the error text of `klog print`; "
+        "independent Python oracles (json.loads, envelope, member order and types, arithmetic relations, notation = minutes, data of the specgen AST incl. "
+        "tags, error numbers = the parser's own, terminal blocks = error objects) and an implementation-only suite for --sort and the filters.",
+   design="§4 C20", technique="Coq proof (induction over rune lists, JSON values, parser runs; lia) over hand model; extracted-model-vs-Go differential "
+                             "correspondence on whole command lines; Python json module as independent parser",
+   note=TB + "Axioms: none (Closed under the global context, 13 theorems). to_json takes the file path as an argument (it appears in the error objects); the "
+             "harness hands klog paths below /proc/self/cwd so that model and implementation see the same path. Filters and --sort are checked by an oracle "
+             "on the implementation only (their model belongs to C13). Known finding K1 (`klog json` panics when a record's total overflows int64) is printed, "
+             "not suppressed beyond its exact inputs. Observation outside the property: kong passes positional arguments through encoding/json, so a file whose "
+             "NAME is not valid UTF-8 cannot be named on the command line (its invalid bytes arrive as U+FFFD: 'No such file')."),
  "C13": dict(
    text="Theorems in coq/Properties/C13.v over the executable model of klog's query layer (coq/Model/Query.v: service.Filter with "
         "reduceRecordToMatchingTags / ...EntryTypes, service.Sort, FilterArgs.ApplyFilter statement by statement incl. every PlusDays / Period() / "
@@ -193,7 +222,7 @@ CLAIMED = {
    design="§4 C13", technique="Coq proof (list induction, option-Kleisli composition, Permutation/StronglySorted, reuse of C15 period_tiles / previous_period / "
                              "plus_days and C14 tag-set lemmas) over hand model; extracted-model-vs-Go differential correspondence through the real CLI; "
                              "independent reference-selection oracle",
-   note=TB + "Axioms: none (Closed under the global context, 36 theorems incl. 2 refuted: C13_args_every_clause_refuted = known finding K13a, several date "
+   note=TB + "Axioms: none (Closed under the global context, 38 theorems incl. 2 refuted: C13_args_every_clause_refuted = known finding K13a, several date "
              "clauses for one bound are not intersected but silently override each other (shortcut > after/before > period > since/until; tomorrow > "
              "yesterday > today > date); C13_args_total_refuted = K13b, a relative shortcut panics when its (previous) period leaves 0000..9999 although the "
              "clock is inside 0000-01-02..9999-12-30 (K4 reached from the command line)). Observation through `klog print` shows a should-total of 0 minutes "
